@@ -27,7 +27,10 @@ impl MessageBatch {
     }
 
     pub fn exceeded_interval(&self, now: Instant) -> bool {
-        now >= self.last_run + self.config.interval
+        // An interval too long to be represented never elapses
+        self.last_run
+            .checked_add(self.config.interval)
+            .is_some_and(|deadline| now >= deadline)
     }
 
     pub fn exceeded_batch_size(&self) -> bool {
